@@ -6,6 +6,10 @@ HERE = os.path.dirname(os.path.dirname(os.path.abspath(__file__)))
 TECH = "bounded symbolic execution of the real Go code (go/ssa -> SMT-LIB bit-vectors), z3 decides every assertion/panic/branch; counterexamples replayed natively"
 
 CHECKS = {
+ "C09": dict(
+   text="Sequential recycling only: inside the real Serve keep-alive loop, request 1 is handled by a handler that applies a symbolic choice of one or two mutators (30 exported mutators of RequestContext/Request/Response/headers/URI, symbolic argument byte, optionally a recovered panic); request 2 is a fixed probe whose full observable state (about 40 getters, header/cookie/arg visits, flags) and response bytes are compared with those of a fresh connection using fresh objects; z3 is asked whether they can differ. A pooled body stream reused on another connection after a failed release is covered by ZZ_C14_H2. Cross-goroutine pool migration and data races are outside this technique.",
+   note="mutator list and dump are hand-written (a field reachable only through an unlisted API is not covered); sync.Pool modelled as LIFO; Acquire/Release of stand-alone Request/Response/URI/Cookie/Args values covered when ZZ_C09_H2 is listed",
+   ref="DESIGN.md §4 C09"),
  "C13": dict(
    text="The real standard.Conn (Peek/peekBuffer/Skip/Release/handleTail/fill/Read/next/ReadByte/ReadBinary/Len, Malloc/WriteBinary/Flush, linkBufferNode) is executed from SSA against a byte-queue model for every operation sequence of length K over the seven reader operations (three writer operations) with sizes in windows around 1, 1 KiB, 4 KiB and 8 KiB and four input fragmentations: bytes observed equal the wire at the model cursor (symbolic bytes at node boundaries), Len equals buffered-minus-consumed, every Peek slice is re-read after each later operation until the next Release, and after Flush the peer holds exactly the concatenation written. mcache/sync.Pool re-issue freed blocks so premature release is visible.",
    note="K=2 (reader) / 3 (writer) in quick, 3/4 in thorough - far below the property's 60..200; sizes are concrete choices; TLS, ReadFrom, error/EOF paths outside",
